@@ -57,6 +57,50 @@ func ctrlRels(b *ssa.BasicBlock) []ctrlRel {
 	return out
 }
 
+// gateRels returns ctrlRels(b) plus the relations established by validation helpers: for a call g(args) to a repo
+// function returning an error whose success edge gates b, the relations controlling g's single nil return, with g's
+// parameters mapped to the arguments (checkInterval(x) error { if x >= max { return err }; return nil }).
+func gateRels(p *an.Prog, b *ssa.BasicBlock) []ctrlRel {
+	out := ctrlRels(b)
+	fn := b.Parent()
+	for _, c := range an.Calls(fn, false) {
+		callee := c.Common().StaticCallee()
+		if callee == nil || len(callee.Blocks) == 0 || !p.InRepo(callee) {
+			continue
+		}
+		u := an.ErrEdges(c)
+		if !u.HasErr || len(u.Succ) == 0 {
+			continue
+		}
+		if an.ReachAvoiding(fn, an.EdgeSet(u.Succ))[b] {
+			continue
+		}
+		var nilRets []*ssa.Return
+		an.AllInstrs(callee, func(in ssa.Instruction) {
+			if ret, ok := in.(*ssa.Return); ok {
+				if cls, _ := returnClass(ret); cls == "nil" {
+					nilRets = append(nilRets, ret)
+				}
+			}
+		})
+		if len(nilRets) != 1 {
+			continue
+		}
+		bind := map[*ssa.Parameter]ssa.Value{}
+		for i, prm := range callee.Params {
+			if i < len(c.Common().Args) {
+				bind[prm] = c.Common().Args[i]
+			}
+		}
+		for _, cr := range ctrlRels(nilRets[0].Block()) {
+			cr.Bind = bind
+			cr.L, cr.R = cr.Rel.Arg(cr.L), cr.Rel.Arg(cr.R)
+			out = append(out, cr)
+		}
+	}
+	return out
+}
+
 // boolCtrl reports whether block b is controlled by cond (a boolean value
 // satisfying pred) being want.
 func boolCtrl(b *ssa.BasicBlock, pred func(ssa.Value) bool, want bool) bool {
@@ -193,7 +237,7 @@ func checkLowBalanceGuard(p *an.Prog, r *an.Run, fn *ssa.Function, lb lbReturn, 
 		if rel.Op != token.LSS {
 			bad = append(bad, "the refusal predicate is 'balance "+rel.Op.String()+" MinBalance' on the refusing branch; the property requires exactly 'balance < MinBalance' (a client at the minimum is not refused, one below it is)")
 		}
-		d := p.Derives(0, rel.L)
+		d := p.DerivesIn(fn, 3, rel.L)
 		get := d.CallTo(func(f *types.Func) bool { return isStoreMethodNamed(f, "GetNodeBalance") })
 		if get == nil {
 			bad = append(bad, "the compared value does not derive from GetNodeBalance")
